@@ -86,6 +86,8 @@ def src_value(kind, sid, i):
     return 0 if i < 4 + sid % 3 else (-1) ** i * (1 + (i * 7 + sid) % 5)
   if kind == "alt":            # alternating sign, small magnitude
     return (-1) ** (i + sid) * ((i * 3 + sid) % 4)
+  if kind == "step":           # dyadic step sizes for a time-varying resample
+    return [0.5, 1.0, 0.25, 2.0, 1.5, 0.75][(sid + i) % 6]
   if kind == "param":
     return 0.1 + ((sid * 3 + i) % 9) * 0.125
   if kind == "sel":
